@@ -275,9 +275,32 @@ DI_RAW = [
      ['producer: "p"', "isOptimized: true", 'flags: "-O2"', "runtimeVersion: 2", "dwoId: 7", "debugInfoForProfiling: true", "nameTableKind: GNU", "rangesBaseAddress: true", 'sysroot: "/s"', 'sdk: "k"']),
 ]
 
-DI = [(n, "!0 = " + t + "\n" + FOOT, fr) for n, t, fr in DI_RAW] + [
+DI_BOUNDS = [
+    # integer fields at the ends of their ranges: signed 64-bit, unsigned 64-bit (stored in an int64 and converted back on print), 32-bit
+    ("DIEnumerator.unsigned-max", '!DIEnumerator(name: "big", value: 18446744073709551615, isUnsigned: true)', ["value: 18446744073709551615, isUnsigned: true"]),
+    ("DIEnumerator.unsigned-2^63", '!DIEnumerator(name: "big", value: 9223372036854775808, isUnsigned: true)', ["value: 9223372036854775808, isUnsigned: true"]),
+    ("DIEnumerator.signed-min", '!DIEnumerator(name: "m", value: -9223372036854775808)', ["value: -9223372036854775808"]),
+    ("DIEnumerator.signed-max", '!DIEnumerator(name: "m", value: 9223372036854775807)', ["value: 9223372036854775807"]),
+    ("DIBasicType.size-max", '!DIBasicType(name: "t", size: 18446744073709551615, align: 4294967295)', ["size: 18446744073709551615", "align: 4294967295"]),
+    ("DIDerivedType.offset-max", '!DIDerivedType(tag: DW_TAG_member, name: "m", baseType: !92, size: 18446744073709551615, offset: 18446744073709551615)', ["offset: 18446744073709551615"]),
+    ("DISubrange.bounds", '!DISubrange(count: -1, lowerBound: -9223372036854775808)', ["count: -1", "lowerBound: -9223372036854775808"]),
+    ("DISubprogram.thisAdjustment-min", 'distinct !DISubprogram(name: "f", virtualIndex: 4294967295, thisAdjustment: -9223372036854775808)', ["virtualIndex: 4294967295", "thisAdjustment: -9223372036854775808"]),
+    ("DICompileUnit.dwoId-max", 'distinct !DICompileUnit(language: DW_LANG_C99, file: !90, dwoId: 18446744073709551615)', ["dwoId: 18446744073709551615"]),
+    ("DILocation.line-max", '!DILocation(line: 4294967295, column: 65535, scope: !91)', ["line: 4294967295", "column: 65535"]),
+    ("DILexicalBlockFile.discriminator-max", '!DILexicalBlockFile(scope: !91, file: !90, discriminator: 4294967295)', ["discriminator: 4294967295"]),
+    ("DITemplateValueParameter.i64-min", '!DITemplateValueParameter(name: "V", type: !92, value: i64 -9223372036854775808)', ["value: i64 -9223372036854775808"]),
+]
+
+DI = [(n, "!0 = " + t + "\n" + FOOT, fr) for n, t, fr in DI_RAW + DI_BOUNDS] + [
     # the same specialised nodes written INLINE as a tuple operand (not a numbered definition): printed in place, never as `!N`
     (n + ".inline", "!0 = !{" + t + "}\n" + FOOT, fr + ["!{" + t.split("(")[0] + "("]) for n, t, fr in DI_RAW if not t.startswith("distinct ")] + [
+    ] + [
+    # every specialised node as a DISTINCT numbered definition (distinctness is set on the pre-allocated node before its body is translated)
+    (n + ".distinct", "!0 = distinct " + t + "\n" + FOOT, ["!0 = distinct " + t.split("(")[0] + "("]) for n, t, fr in DI_RAW if not t.startswith("distinct ")] + [
+    ("DIExpression.distinct-numbered", "!0 = !{!97, !98, !99}\n!97 = distinct !DIExpression(DW_OP_deref)\n!98 = distinct !DIExpression()\n!99 = !DIExpression(DW_OP_plus_uconst, 3, DW_OP_stack_value)\n",
+     ["!97 = distinct !DIExpression(DW_OP_deref)", "!98 = distinct !DIExpression()", "!99 = !DIExpression(DW_OP_plus_uconst, 3, DW_OP_stack_value)"]),
+    ("Tuple.distinct-forms", "!0 = distinct !{}\n!1 = distinct !{}\n!2 = !{}\n!3 = distinct !{!0, !1, !2}\n!4 = distinct !{null}\n",
+     ["!0 = distinct !{}", "!1 = distinct !{}", "!2 = !{}", "!3 = distinct !{!0, !1, !2}", "!4 = distinct !{null}"]),
     ("DICompileUnit.splitDebugInlining-false", "!0 = distinct !DICompileUnit(language: DW_LANG_C99, file: !1, splitDebugInlining: false)\n!1 = !DIFile(filename: \"a\", directory: \"b\")\n", ["splitDebugInlining: false"]),
     ("md.value-in-call", "declare void @llvm.dbg.value(metadata %0, metadata %1, metadata %2)\n\ndefine void @f(i32 %a) {\n\tcall void @llvm.dbg.value(metadata i32 %a, metadata !0, metadata !DIExpression(DW_OP_plus_uconst, 3))\n\tret void\n}\n\n!0 = !{}\n", ["metadata i32 %a", "DW_OP_plus_uconst, 3"]),
     ("DIGlobalVariableExpression.numbered-expr", "!0 = !DIGlobalVariableExpression(var: !96, expr: !97)\n" + FOOT + "!97 = !DIExpression(DW_OP_deref)\n", ["var: !96", "expr: !97", "!97 = !DIExpression(DW_OP_deref)"]),
@@ -300,6 +323,10 @@ def comdat_entries():
             out.append(("comdat.x.global.%s.%s" % (nm, spell), "%s = comdat any\n\n%s = global i32 0, %s\n" % (cd, ident, c), ["%s = global i32 0, comdat" % ident, "%s = comdat any" % cd]))
             out.append(("comdat.x.define.%s.%s" % (nm, spell), "%s = comdat any\n\ndefine void %s() %s {\n\tret void\n}\n" % (cd, ident, c), ["define void %s() comdat" % ident]))
             out.append(("comdat.x.declare.%s.%s" % (nm, spell), "%s = comdat any\n\ndeclare void %s() %s\n" % (cd, ident, c), ["declare void %s() comdat" % ident]))
+    # a comdat whose NAME is the quoted display form of a digit-named entity (`"7"` with the quote characters) is not that entity's implicit comdat
+    for kind, text in (("global", '@"7" = global i32 0, comdat($"\\227\\22")\n'), ("define", 'define void @"7"() comdat($"\\227\\22") {\n\tret void\n}\n'),
+                       ("declare", 'declare void @"7"() comdat($"\\227\\22")\n')):
+        out.append(("comdat.x.%s.display-form-name" % kind, '$"\\227\\22" = comdat any\n\n' + text, ['comdat($"\\227\\22")']))
     return out
 
 
@@ -348,5 +375,144 @@ def flag_cross_entries():
     return out
 
 
+def addrspace_cross_entries():
+    """every kind of global entity placed in a non-zero address space x every kind of site at which its (pointer) type is printed"""
+    out = []
+    G = "@g = addrspace(3) global i32 0\n"
+    H = "declare void @h() addrspace(2)\n"
+    A = G + "@a = alias i32, i32 addrspace(3)* @g\n"
+    def fn(body, ret="void", retv="void"):
+        return "\ndefine %s @f() {\n\t%s\n\tret %s\n}\n" % (ret, body, retv)
+    for nm, pre, ref in (("global", G, "@g"), ("alias", A, "@a")):
+        pt = "i32 addrspace(3)*"
+        for site, text, frag in (
+                ("store", pre + fn("store i32 1, %s %s" % (pt, ref)), "store i32 1, %s %s" % (pt, ref)),
+                ("load", pre + fn("%%v = load i32, %s %s" % (pt, ref)), "load i32, %s %s" % (pt, ref)),
+                ("ret", pre + "\ndefine %s @f() {\n\tret %s %s\n}\n" % (pt, pt, ref), "ret %s %s" % (pt, ref)),
+                ("call-arg", pre + "declare void @k(%s)\n" % pt + fn("call void @k(%s %s)" % (pt, ref)), "call void @k(%s %s)" % (pt, ref)),
+                ("icmp", pre + fn("%%c = icmp eq %s %s, null" % (pt, ref)), "icmp eq %s %s, null" % (pt, ref)),
+                ("init", pre + "@p = global %s %s\n" % (pt, ref), "@p = global %s %s" % (pt, ref)),
+                ("bitcast-expr", pre + "@p = global i8 addrspace(3)* bitcast (%s %s to i8 addrspace(3)*)\n" % (pt, ref), "bitcast (%s %s to" % (pt, ref)),
+                ("gep-expr", pre + "@p = global %s getelementptr (i32, %s %s, i64 1)\n" % (pt, pt, ref), "getelementptr (i32, %s %s, i64 1)" % (pt, ref)),
+                ("addrspacecast-expr", pre + "@p = global i32* addrspacecast (%s %s to i32*)\n" % (pt, ref), "addrspacecast (%s %s to i32*)" % (pt, ref)),
+                ("struct-field", pre + "@p = global { %s } { %s %s }\n" % (pt, pt, ref), "{ %s %s }" % (pt, ref))):
+            out.append(("addrspace.%s.%s" % (nm, site), text, [frag]))
+    # aliases whose aliasee is a constant EXPRESSION in a non-zero address space: the alias' own type is derived from the expression
+    AG = "@g = addrspace(2) global [2 x i32] zeroinitializer\n"
+    for kind, al, pt in (("gep", "@a = alias i32, getelementptr inbounds ([2 x i32], [2 x i32] addrspace(2)* @g, i32 0, i32 1)", "i32 addrspace(2)*"),
+                         ("gep-noinbounds", "@a = alias i32, getelementptr ([2 x i32], [2 x i32] addrspace(2)* @g, i64 0, i64 0)", "i32 addrspace(2)*"),
+                         ("bitcast", "@a = alias i8, bitcast ([2 x i32] addrspace(2)* @g to i8 addrspace(2)*)", "i8 addrspace(2)*"),
+                         ("addrspacecast", "@a = alias [2 x i32], addrspacecast ([2 x i32] addrspace(2)* @g to [2 x i32] addrspace(5)*)", "[2 x i32] addrspace(5)*"),
+                         ("plain", "@a = alias [2 x i32], [2 x i32] addrspace(2)* @g", "[2 x i32] addrspace(2)*")):
+        out.append(("addrspace.alias-of-expr.%s" % kind, AG + al + "\n@p = global %s @a\n" % pt, [al, "@p = global %s @a" % pt]))
+    ft = "void () addrspace(2)*"
+    for site, text, frag in (
+            ("init", H + "@p = global %s @h\n" % ft, "@p = global %s @h" % ft),
+            ("call", H + fn("call addrspace(2) void @h()"), "call addrspace(2) void @h()"),
+            ("icmp", H + fn("%%c = icmp eq %s @h, null" % ft), "icmp eq %s @h, null" % ft),
+            ("bitcast-expr", H + "@p = global i8 addrspace(2)* bitcast (%s @h to i8 addrspace(2)*)\n" % ft, "bitcast (%s @h to" % ft),
+            ("store", H + "@q = global %s null\n" % ft + fn("store %s @h, %s* @q" % (ft, ft)), "store %s @h, %s* @q" % (ft, ft))):
+        out.append(("addrspace.func.%s" % site, text, [frag]))
+    return out
+
+
+def written_type_entries():
+    """inputs the parser accepts although the type WRITTEN in front of a global reference is not the global's type (the written type is discarded),
+    and named non-struct types at the same sites: print(parse x) must still be accepted and be a fixpoint (C02 quantifies over everything accepted)"""
+    out = []
+    G = "@g = global i32 0\n"
+    body = lambda b: "\ndefine void @f() {\n\t%s\n\tret void\n}\n" % b
+    for nm, text in (
+            ("gep-expr-src", G + "@p = global i8* getelementptr (i8, i8* @g, i64 0)\n"),
+            ("gep-expr-src-inbounds", G + "@p = global i8* getelementptr inbounds (i8, i8* @g, i64 1)\n"),
+            ("bitcast-expr-from", G + "@p = global i64* bitcast (i8* @g to i64*)\n"),
+            ("ptrtoint-expr-from", G + "@p = global i64 ptrtoint (i8* @g to i64)\n"),
+            ("addrspacecast-expr-from", G + "@p = global i8 addrspace(1)* addrspacecast (i8* @g to i8 addrspace(1)*)\n"),
+            ("icmp-expr", G + "@p = global i1 icmp eq (i8* @g, i8* null)\n"),
+            ("init", G + "@p = global i8* @g\n"),
+            ("load", G + body("%v = load i8, i8* @g")),
+            ("store", G + body("store i8 1, i8* @g")),
+            ("gep-inst", G + body("%v = getelementptr i8, i8* @g, i64 1")),
+            ("call-arg", G + "declare void @k(i8*)\n" + body("call void @k(i8* @g)")),
+            ("icmp-inst", G + body("%c = icmp eq i8* @g, null")),
+            ("ptrtoint-inst", G + body("%c = ptrtoint i8* @g to i64")),
+            ("func-ref", "declare void @h()\n@p = global i8* @h\n"),
+            ("func-ref-call", "declare void @h()\n" + body("call void bitcast (i8* @h to void ()*)()")),
+    ):
+        out.append(("written-type.%s" % nm, text, None))
+    P = "%P = type i8*\n@g = global i8* null\n"
+    for nm, text in (
+            ("named-ptr.gep-expr", P + "@p = global %P* getelementptr (%P, %P* @g, i64 0)\n"),
+            ("named-ptr.bitcast-expr", P + "@p = global i64* bitcast (%P* @g to i64*)\n"),
+            ("named-ptr.init", P + "@p = global %P* @g\n"),
+            ("named-ptr.load", P + body("%v = load %P, %P* @g")),
+            ("named-ptr.store", P + body("store %P null, %P* @g")),
+            ("named-ptr.gep-inst", P + body("%v = getelementptr %P, %P* @g, i64 1")),
+            ("named-ptr.alloca", P + body("%v = alloca %P")),
+            ("named-int.add", "%I = type i32\n\ndefine %I @f(%I %a) {\n\t%r = add %I %a, 1\n\tret %I %r\n}\n"),
+            ("named-int.icmp", "%I = type i32\n\ndefine i1 @f(%I %a) {\n\t%r = icmp eq %I %a, 1\n\tret i1 %r\n}\n"),
+            ("named-vec.icmp", "%V = type <4 x i32>\n\ndefine <4 x i32> @f(%V %a) {\n\t%c = icmp eq %V %a, zeroinitializer\n\t%z = zext <4 x i1> %c to <4 x i32>\n\tret <4 x i32> %z\n}\n"),
+            ("named-vec.fcmp", "%V = type <4 x float>\n\ndefine <4 x i1> @f(%V %a) {\n\t%c = fcmp oeq %V %a, zeroinitializer\n\tret <4 x i1> %c\n}\n"),
+            ("named-arr.extractvalue", "%A = type [2 x i32]\n\ndefine i32 @f(%A %a) {\n\t%r = extractvalue %A %a, 1\n\tret i32 %r\n}\n"),
+    ):
+        out.append(("written-type.%s" % nm, text, None))
+    return out
+
+
+MDF = "\n!0 = !{}\n!1 = !{!0}\n!2 = !{i32 1}\n!3 = !{i32 0, i32 9}\n!4 = !{!1}\n"
+
+# REPETITION: the same kind / key / name given more than once in one list (where translation might merge, de-duplicate or index by name)
+REPEATS = [
+    ("repeat.inst-attachments", "define i32 @f(i32 %x) {\n\t%y = add i32 %x, 1, !dbg !0, !tbaa !1, !prof !2, !range !3, !dbg !4\n\tret i32 %y\n}\n" + MDF, None),
+    ("repeat.term-attachments", "define void @f() {\n\tret void, !a !0, !b !1, !c !2, !a !4, !b !0\n}\n" + MDF, None),
+    ("repeat.global-attachments", "@g = global i32 0, !a !0, !b !1, !c !2, !a !4\n" + MDF, None),
+    ("repeat.func-attachments", "define void @f() !a !0 !b !1 !c !2 !a !4 {\n\tret void\n}\n" + MDF, None),
+    ("repeat.decl-attachments", "declare !a !0 !b !1 !c !2 !a !4 void @f()\n" + MDF, None),
+    ("repeat.func-attrs", "declare void @f() nounwind readnone nounwind \"k\"=\"v\" \"k\"=\"w\" \"k\"=\"v\"\n", None),
+    ("repeat.param-attrs", "declare void @f(i8* nonnull noalias nonnull \"k\" \"k\" %p)\n", None),
+    ("repeat.ret-attrs", "declare noalias nonnull noalias i8* @f()\n", None),
+    ("repeat.call-attrs", "declare void @g(i8*)\n\ndefine void @f(i8* %p) {\n\tcall void @g(i8* nonnull noalias nonnull %p) nounwind \"a\" nounwind \"a\"\n\tret void\n}\n", None),
+    ("repeat.named-metadata", "!n = !{!0, !1}\n!m = !{!2}\n!n = !{!1, !4, !0}\n" + MDF, None),
+    ("repeat.named-metadata-operands", "!n = !{!0, !0, !1, !0}\n" + MDF, None),
+    ("repeat.tuple-fields", "!9 = !{!0, !0, i32 1, i32 1, !\"s\", !\"s\", null, null}\n" + MDF, None),
+    ("repeat.switch-targets", "define void @f(i32 %x) {\ne:\n\tswitch i32 %x, label %a [\n\t\ti32 1, label %a\n\t\ti32 2, label %b\n\t\ti32 3, label %a\n\t\ti32 4, label %b\n\t]\n\na:\n\tret void\n\nb:\n\tret void\n}\n", None),
+    ("repeat.indirectbr-targets", "define void @f(i8* %p) {\ne:\n\tindirectbr i8* %p, [label %a, label %b, label %a, label %a]\n\na:\n\tret void\n\nb:\n\tret void\n}\n", None),
+    ("repeat.phi-preds", "define i32 @f(i32 %x, i32 %y) {\ne:\n\tbr label %n\n\nn:\n\t%p = phi i32 [ %x, %e ], [ %y, %e ], [ %x, %n ], [ %p, %e ]\n\tbr label %n\n}\n", None),
+    ("repeat.operand-bundles", "declare void @g()\n\ndefine void @f(i32 %x) {\n\tcall void @g() [ \"t\"(i32 %x), \"u\"(), \"t\"(i32 1), \"t\"(i32 %x) ]\n\tret void\n}\n", None),
+    ("repeat.landingpad-clauses", "define void @f() personality i8* null {\n\t%lp = landingpad { i8*, i32 }\n\t\tcatch i8* null\n\t\tcatch i8* null\n\t\tfilter [0 x i8*] zeroinitializer\n\t\tcatch i8* null\n\tret void\n}\n", None),
+    ("repeat.uselistorder", "@g = global i32 0\n@p = global i32* @g\n@q = global i32* @g\n\nuselistorder i32* @g, { 1, 0 }\nuselistorder i32* @g, { 1, 0 }\n", None),
+    ("repeat.comdat-users", "$c = comdat any\n\n@a = global i32 0, comdat($c)\n@b = global i32 0, comdat($c)\n\ndefine void @f() comdat($c) {\n\tret void\n}\n", None),
+    ("repeat.attrgroup-refs", "declare void @f() #0 #1 #0\n\nattributes #0 = { nounwind }\nattributes #1 = { readnone }\n", None),
+    ("repeat.struct-same-const", "@g = global { i32, i32, i32 } { i32 1, i32 1, i32 1 }\n@h = global [3 x i8*] [i8* bitcast ({ i32, i32, i32 }* @g to i8*), i8* bitcast ({ i32, i32, i32 }* @g to i8*), i8* null]\n", None),
+    ("repeat.gep-indices", "@a = global [4 x [4 x i32]] zeroinitializer\n@p = global i32* getelementptr ([4 x [4 x i32]], [4 x [4 x i32]]* @a, i64 0, i64 1, i64 1)\n", None),
+    ("repeat.di-flags", "!0 = !DIBasicType(name: \"t\", flags: DIFlagPublic | DIFlagArtificial | DIFlagPublic)\n", None),
+]
+
+
+# unsigned integer literals OUTSIDE typed constants (alignments, sizes, indices, IDs ...) written with leading zeros: decimal, never octal
+UINT_LITS = [
+    ("uint.global-align", "@g = global i32 0, align 016\n", ["align 16"]),
+    ("uint.alloca-align", "define void @f() {\n\t%a = alloca i32, align 010\n\tret void\n}\n", ["align 10"]),
+    ("uint.load-store-align", "define void @f(i32* %p) {\n\t%v = load i32, i32* %p, align 08\n\tstore i32 %v, i32* %p, align 0016\n\tret void\n}\n", ["align 8", "align 16"]),
+    ("uint.func-align", "define void @f() align 032 {\n\tret void\n}\n", ["align 32"]),
+    ("uint.alignstack", "declare void @f() alignstack(016)\n", ["alignstack(16)"]),
+    ("uint.param-align-deref", "declare void @f(i8* align 010 dereferenceable(0100) dereferenceable_or_null(010) %p)\n", ["align 10", "dereferenceable(100)", "dereferenceable_or_null(10)"]),
+    ("uint.addrspace", "@g = addrspace(010) global i32 0\n@p = global i32 addrspace(010)* @g\n", ["addrspace(10)"]),
+    ("uint.array-len", "@g = global [010 x i8] zeroinitializer\n", ["[10 x i8]"]),
+    ("uint.vector-len", "@g = global <010 x i8> zeroinitializer\n", ["<10 x i8>"]),
+    ("uint.extractvalue-idx", "define i32 @f([12 x { i32, i32 }] %a) {\n\t%r = extractvalue [12 x { i32, i32 }] %a, 010, 01\n\tret i32 %r\n}\n", ["%a, 10, 1"]),
+    ("uint.insertvalue-idx", "define [12 x i32] @f([12 x i32] %a) {\n\t%r = insertvalue [12 x i32] %a, i32 1, 011\n\tret [12 x i32] %r\n}\n", ["i32 1, 11"]),
+    ("uint.diexpression", "!0 = !DIExpression(DW_OP_constu, 0100, DW_OP_plus_uconst, 010)\n", ["DW_OP_constu, 100, DW_OP_plus_uconst, 10"]),
+    ("uint.di-fields", "!0 = !DIBasicType(name: \"t\", size: 0100, align: 010)\n!1 = !DILocation(line: 010, column: 07, scope: !2)\n!2 = distinct !DISubprogram(name: \"f\", line: 011, scopeLine: 012)\n", ["size: 100, align: 10", "line: 10, column: 7", "line: 11", "scopeLine: 12"]),
+    ("uint.cc", "declare cc 010 void @f()\n", ["ghccc void"]),
+    ("uint.vscale-range", "declare void @f() vscale_range(01,010)\n", ["vscale_range(1, 10)"]),
+    ("uint.allocsize", "declare i8* @f(i32, i32) allocsize(00,01)\n", ["allocsize(0, 1)"]),
+    ("uint.md-id-attrgroup", "declare void @f() #010\n\nattributes #010 = { nounwind }\n", ["attributes #10 = { nounwind }"]),
+    ("uint.uselistorder", "@g = global i32 0\n@p = global i32* @g\n@q = global i32* @g\n\nuselistorder i32* @g, { 01, 00 }\n", ["{ 1, 0 }"]),
+    ("uint.atomic-align", "define void @f(i32* %p) {\n\t%v = load atomic i32, i32* %p seq_cst, align 04\n\tret void\n}\n", ["align 4"]),
+    ("uint.int-type-width", "@g = global i032 7\n", None),
+]
+
+
 def all_entries(rows):
-    return kw_entries(rows) + STRUCTURED + NAMED_NONSTRUCT + inst_entries() + DI + comdat_entries() + flag_cross_entries()
+    return kw_entries(rows) + STRUCTURED + NAMED_NONSTRUCT + inst_entries() + DI + comdat_entries() + flag_cross_entries() + addrspace_cross_entries() + written_type_entries() + REPEATS + UINT_LITS
